@@ -170,6 +170,10 @@ def _fill(rng, qlists, kind, qright):
                 T[..., r] = T[..., same[0]]
     elif kind == 'zero':
         T = np.zeros(S.shape)
+    elif kind == 'fortran':
+        # complex entries stored column-major (operations that reshape in place or hand views to LAPACK see a different layout)
+        T = generic(rng, S.shape, 'complex')
+        return np.asfortranarray(np.where(S == 0, T, 0))
     else:
         raise ValueError(kind)
     return np.where(S == 0, T, 0)
